@@ -17,6 +17,7 @@ import (
 	"net"
 	"net/netip"
 	"os"
+	"strconv"
 	"sync"
 	"sync/atomic"
 	"testing"
@@ -39,51 +40,124 @@ import (
 
 const protoTS = 123 // DRKey protocol number of the time service (ScionAuth.tla!DRKeyProtocolTS)
 
-// host-AS key of (server IA, client IA, server host): what a control service
-// would derive; here a hash of the metadata
-func hostASKey(proto drkey.Protocol, srvIA, cliIA addr.IA, srvHost string) drkey.Key {
-	h := sha256.Sum256([]byte("c13|" + proto.String() + "|" + srvIA.String() + "|" + cliIA.String() + "|" + srvHost))
+// host-AS key of (server IA, client IA, server host) in key epoch ep: what a
+// control service would derive; here a hash of the metadata and the epoch
+func hostASKey(proto drkey.Protocol, srvIA, cliIA addr.IA, srvHost string, ep int) drkey.Key {
+	h := sha256.Sum256([]byte("c13|" + proto.String() + "|" + srvIA.String() + "|" + cliIA.String() + "|" + srvHost +
+		"|" + strconv.Itoa(ep)))
 	var k drkey.Key
 	copy(k[:], h[:])
 	return k
 }
 
-func hostHostKey(proto drkey.Protocol, srvIA, cliIA addr.IA, srvHost, cliHost string) drkey.Key {
-	k, err := (&generic.Deriver{Proto: proto}).DeriveHostHost(cliHost, hostASKey(proto, srvIA, cliIA, srvHost))
+func hostHostKey(proto drkey.Protocol, srvIA, cliIA addr.IA, srvHost, cliHost string, ep int) drkey.Key {
+	k, err := (&generic.Deriver{Proto: proto}).DeriveHostHost(cliHost, hostASKey(proto, srvIA, cliIA, srvHost, ep))
 	if err != nil {
 		panic(err)
 	}
 	return k
 }
 
-// the harness's DRKey daemon: only the two calls net/scion/drkey.go makes
+// The harness's DRKey daemon: only the two calls net/scion/drkey.go makes.
+// Keys have validity epochs (ScionAuth.tla: time and key epochs): per client
+// ISD-AS the daemon keeps the epoch boundaries B_1 < B_2 < ...; epoch k consists
+// of the instants B_k .. B_(k+1) - 1 ns (epoch 0 begins long before B_1, the
+// last one ends long after its beginning), every epoch has its own keys, and a
+// request for instant t is answered with the key and the validity of the epoch
+// that contains t. An ISD-AS without boundaries has one epoch, 0.
+// A boundary is laid down before any key of the epoch it ends is handed out.
 type keyDaemon struct {
 	daemon.Connector
 	hostAS   atomic.Int64 // DRKeyGetHostASKey calls
 	hostHost atomic.Int64
-	ttl      atomic.Int64 // validity of the next key handed out beyond the requested instant, ns
+	mu       sync.Mutex
+	base     time.Time
+	bounds   map[addr.IA][]time.Time
 }
 
-const (
-	longTTL  = int64(6 * time.Hour)
-	shortTTL = int64(80 * time.Millisecond)
-)
+const farAway = 24 * time.Hour
 
-func (d *keyDaemon) epoch(at time.Time) drkey.Epoch {
-	return drkey.Epoch{Validity: cppki.Validity{NotBefore: at.Add(-time.Hour), NotAfter: at.Add(time.Duration(d.ttl.Load()))}}
+func newKeyDaemon() *keyDaemon {
+	return &keyDaemon{base: time.Now().Round(0), bounds: map[addr.IA][]time.Time{}}
+}
+
+// lays down boundary B_k of the client ISD-AS (k = 1, 2, ... in order)
+func (d *keyDaemon) setBound(ia addr.IA, k int, t time.Time) {
+	d.mu.Lock()
+	defer d.mu.Unlock()
+	b := d.bounds[ia]
+	if k != len(b)+1 || (len(b) > 0 && !t.After(b[len(b)-1])) {
+		panic("epoch boundaries out of order")
+	}
+	d.bounds[ia] = append(b, t.Round(0))
+}
+
+func (d *keyDaemon) forget(ia addr.IA) {
+	d.mu.Lock()
+	delete(d.bounds, ia)
+	d.mu.Unlock()
+}
+
+// highest epoch number of the client ISD-AS
+func (d *keyDaemon) lastEpoch(ia addr.IA) int {
+	d.mu.Lock()
+	defer d.mu.Unlock()
+	return len(d.bounds[ia])
+}
+
+// the epoch that contains t
+func (d *keyDaemon) epochAt(ia addr.IA, t time.Time) (int, drkey.Epoch) {
+	d.mu.Lock()
+	defer d.mu.Unlock()
+	return epochIn(d.base, d.bounds[ia], t)
+}
+
+func epochIn(base time.Time, b []time.Time, t time.Time) (int, drkey.Epoch) {
+	k := 0
+	for k < len(b) && !t.Before(b[k]) {
+		k++
+	}
+	first := base
+	if len(b) > 0 {
+		first = b[0]
+	}
+	v := cppki.Validity{NotBefore: first.Add(-farAway), NotAfter: first.Add(farAway)}
+	if k > 0 {
+		v.NotBefore = b[k-1]
+		v.NotAfter = b[k-1].Add(farAway)
+	}
+	if k < len(b) {
+		v.NotAfter = b[k].Add(-time.Nanosecond)
+	}
+	return k, drkey.Epoch{Validity: v}
 }
 
 func (d *keyDaemon) DRKeyGetHostASKey(ctx context.Context, meta drkey.HostASMeta) (drkey.HostASKey, error) {
 	d.hostAS.Add(1)
-	return drkey.HostASKey{ProtoId: meta.ProtoId, Epoch: d.epoch(meta.Validity), SrcIA: meta.SrcIA, DstIA: meta.DstIA,
-		SrcHost: meta.SrcHost, Key: hostASKey(meta.ProtoId, meta.SrcIA, meta.DstIA, meta.SrcHost)}, nil
+	ep, epoch := d.epochAt(meta.DstIA, meta.Validity)
+	return drkey.HostASKey{ProtoId: meta.ProtoId, Epoch: epoch, SrcIA: meta.SrcIA, DstIA: meta.DstIA,
+		SrcHost: meta.SrcHost, Key: hostASKey(meta.ProtoId, meta.SrcIA, meta.DstIA, meta.SrcHost, ep)}, nil
 }
 
 func (d *keyDaemon) DRKeyGetHostHostKey(ctx context.Context, meta drkey.HostHostMeta) (drkey.HostHostKey, error) {
 	d.hostHost.Add(1)
-	return drkey.HostHostKey{ProtoId: meta.ProtoId, Epoch: d.epoch(meta.Validity), SrcIA: meta.SrcIA, DstIA: meta.DstIA,
+	ep, epoch := d.epochAt(meta.DstIA, meta.Validity)
+	return drkey.HostHostKey{ProtoId: meta.ProtoId, Epoch: epoch, SrcIA: meta.SrcIA, DstIA: meta.DstIA,
 		SrcHost: meta.SrcHost, DstHost: meta.DstHost,
-		Key: hostHostKey(meta.ProtoId, meta.SrcIA, meta.DstIA, meta.SrcHost, meta.DstHost)}, nil
+		Key: hostHostKey(meta.ProtoId, meta.SrcIA, meta.DstIA, meta.SrcHost, meta.DstHost, ep)}, nil
+}
+
+// the key functions of the packet examiner (pkt_test.go) over this daemon
+func (d *keyDaemon) bind(w *world) {
+	w.keyEp = func(srvIA, cliIA addr.IA, srvHost, cliHost netip.Addr, ep int) []byte {
+		k := hostHostKey(protoTS, srvIA, cliIA, srvHost.String(), cliHost.String(), ep)
+		return k[:]
+	}
+	w.keyFn = func(srvIA, cliIA addr.IA, srvHost, cliHost netip.Addr) []byte {
+		ep, _ := d.epochAt(cliIA, time.Now())
+		return w.keyEp(srvIA, cliIA, srvHost, cliHost, ep)
+	}
+	w.epRange = func(cliIA addr.IA) (int, int) { return 0, d.lastEpoch(cliIA) }
 }
 
 // one step of a sequence as printed by ScionAuthMC!EmitSeq
@@ -92,6 +166,11 @@ type kstep struct {
 	Sh     string `json:"sh"`
 	Dh     string `json:"dh"`
 	Ak     string `json:"ak"`
+	At     int    `json:"at"`
+	Ep     int    `json:"ep"`
+	Pos    int    `json:"pos"`
+	Cst    string `json:"cst"`
+	Macok  bool   `json:"macok"`
 	Asked  bool   `json:"asked"`
 	Exp    bool   `json:"exp"`
 	Fetch  bool   `json:"fetch"`
@@ -101,6 +180,8 @@ type kstep struct {
 
 type kcase struct {
 	T     string  `json:"t"` // "seq" | "e2e"
+	Elen  int     `json:"elen"`  // seq: instants per epoch in the generating configuration
+	Scale string  `json:"scale"` // seq, fetcher level: length of an epoch ("" = not replayed at that level)
 	Steps []kstep `json:"steps"`
 	// e2e
 	Rm string `json:"rm"`
@@ -126,13 +207,24 @@ func otherOf(x string) string {
 	return x
 }
 
-func (h *harness) runSeq(id int, c *kcase, kd *keyDaemon, rng *rand.Rand) []*rec {
+// Replays one sequence at the live listener. Model epochs are realised as epochs of
+// the harness's DRKey daemon for the sequence's (fresh) client ISD-AS numbers: when the
+// first datagram of an epoch is about to be sent and a later one arrives in a later
+// epoch, the end of the current epoch is laid down `gap` ahead (so that the key handed
+// out for it carries its true validity) and the datagrams of later epochs wait for
+// their boundary to pass. The listener takes the kernel's receive time; the epoch a
+// datagram was received in is known when the daemon's epoch is the same before it is
+// sent and after the listener has answered the sentinel behind it (otherwise: amb).
+// late: a datagram could not be sent within its epoch (the sequence stops there).
+func (h *harness) runSeq(id int, c *kcase, kd *keyDaemon, rng *rand.Rand, gap time.Duration) (recs []*rec, late bool) {
 	const mode = "server"
 	// fresh client ISD-AS numbers: the listener's cache holds nothing for them
 	n := iaSeq.Add(2)
 	ias := map[string]addr.IA{"iaS": iaS,
 		"iaC":  addr.MustIAFrom(1, addr.AS(0xff0000010000+n)),
 		"iaC2": addr.MustIAFrom(1, addr.AS(0xff0000010001+n))}
+	defer kd.forget(ias["iaC"])
+	defer kd.forget(ias["iaC2"])
 	pm := portMap{srv: h.w.srvPort, oth: -1, ias: map[addr.IA]string{}}
 	for l, ia := range ias {
 		pm.ias[ia] = l
@@ -141,33 +233,38 @@ func (h *harness) runSeq(id int, c *kcase, kd *keyDaemon, rng *rand.Rand) []*rec
 	defer P.Close()
 	pm.cp = 31000 + rng.Intn(1000)
 	dst := udpAddr(h.w.ipS[mode], h.w.srvPort)
-	var recs []*rec
-	sentAt := make([]time.Time, len(c.Steps))
+	var lastBound time.Time
 	for i := range c.Steps {
 		st := &c.Steps[i]
 		r := &rec{K: "key", ID: id, Seq: id, Step: i + 1, Sub: -1, Rsub: -1, Mode: mode, Ak: st.Ak, Pl0: "ntp", Outs: []adgram{},
-			Rm: "-", Cli: "-", WFetch: st.Fetch, WExp: st.Exp, WAct: st.Wact}
-		// the key's lifetime: short iff the specification lets it run out before its next use
-		kd.ttl.Store(longTTL)
-		for j := i + 1; j < len(c.Steps); j++ {
-			if c.Steps[j].Sia == st.Sia && c.Steps[j].Asked && (c.Steps[j].Exp || c.Steps[j].Fetch) {
-				if c.Steps[j].Exp {
-					kd.ttl.Store(shortTTL)
-				}
-				break
-			}
+			Rm: "-", Cli: "-", WFetch: st.Fetch, WExp: st.Exp, WAct: st.Wact, At: st.At, Pos: st.Pos, Cst: st.Cst, WMacOK: st.Macok,
+			Scale: "-"}
+		first := i == 0 || st.Ep > c.Steps[i-1].Ep
+		if first && i > 0 {
+			// the boundaries up to this epoch were laid down at the first datagram of the previous one
+			time.Sleep(time.Until(lastBound.Add(gap / 8)))
 		}
-		if st.Exp {
-			// the entry this step meets was fetched at the last fetching step of the same ISD-AS
-			for j := i - 1; j >= 0; j-- {
-				if c.Steps[j].Sia == st.Sia && c.Steps[j].Fetch {
-					time.Sleep(time.Until(sentAt[j].Add(time.Duration(shortTTL) + 10*time.Millisecond)))
-					break
+		if first {
+			inEpoch, next := 0, -1
+			for j := i; j < len(c.Steps) && next < 0; j++ {
+				if c.Steps[j].Ep == st.Ep {
+					inEpoch++
+				} else {
+					next = c.Steps[j].Ep
 				}
 			}
+			if next >= 0 {
+				b := time.Now().Add(gap + time.Duration(inEpoch)*gap/4)
+				for k := st.Ep + 1; k <= next; k++ {
+					kd.setBound(ias["iaC"], k, b)
+					kd.setBound(ias["iaC2"], k, b)
+					lastBound = b
+					b = b.Add(2 * time.Millisecond) // (epochs nobody arrives in are short)
+				}
+			}
 		}
-		// the tuple whose key the MAC is computed with
-		ksia, ksh, kdh := st.Sia, st.Sh, st.Dh
+		// the tuple and the epoch whose key the MAC is computed with
+		ksia, ksh, kdh, kep := st.Sia, st.Sh, st.Dh, st.Ep
 		switch st.Ak {
 		case "keyOtherSrv":
 			kdh = otherOf(kdh)
@@ -175,26 +272,32 @@ func (h *harness) runSeq(id int, c *kcase, kd *keyDaemon, rng *rand.Rand) []*rec
 			ksh = otherOf(ksh)
 		case "keyOtherIA":
 			ksia = otherOf(ksia)
+		case "keyPrevEpoch":
+			kep--
+		case "keyNextEpoch":
+			kep++
 		case "valid":
 		default:
 			panic("ak " + st.Ak)
 		}
-		key := hostHostKey(protoTS, iaS, ias[ksia], h.w.host(mode, kdh, 4).String(), h.w.host(mode, ksh, 4).String())
+		key := hostHostKey(protoTS, iaS, ias[ksia], h.w.host(mode, kdh, 4).String(), h.w.host(mode, ksh, 4).String(), kep)
 		s := &pktSpec{srcIA: ias[st.Sia], dstIA: iaS, srcHost: h.w.host(mode, st.Sh, 4), dstHost: h.w.host(mode, st.Dh, 4),
 			sport: uint16(pm.cp), dport: uint16(h.w.srvPort), path: emptyPath, l4: "udp", payload: ntpRequest(0x23, h.tag(), rng),
 			flow: uint32(rng.Intn(1 << 20)), auth: &authSpec{spi: spiClient, algo: algCMAC, key: key[:]}}
 		wire := build(s, rng)
 		q, qp := h.w.project(mode, wire, pm)
 		q.Ul, q.Pl = "srv", "ntp"
-		r.Q = q
 		r.HasAuth = q.Auth != "absent"
 		r.Expected = q.Aspi == "client" && q.Aalgo == "cmac"
-		r.MacOK = q.Auth == "ok"
 		lo := layoutOf(wire)
 		reqPath := typedPath{lo.pathType, append([]byte{}, wire[lo.pathOff:lo.hdrLen]...)}
 		reqPl := append([]byte{}, qp.l4Payload()...)
 		swire, mark := h.sentinelFor(mode, P, rng)
 		before := kd.hostAS.Load()
+		eb, _ := kd.epochAt(ias[st.Sia], time.Now())
+		if eb != st.Ep {
+			return recs, true // too late for this datagram's epoch
+		}
 		P.WriteToUDP(wire, dst)
 		P.WriteToUDP(swire, dst)
 		P.SetReadDeadline(time.Now().Add(sentinelWait))
@@ -211,15 +314,33 @@ func (h *harness) runSeq(id int, c *kcase, kd *keyDaemon, rng *rand.Rand) []*rec
 			}
 			r.Outs = append(r.Outs, h.observe(mode, b, from, "prev", pm, reqPl, reqPl[40:48], reqPath, reqPath, "ntp"))
 		}
-		sentAt[i] = time.Now()
+		ea, _ := kd.epochAt(ias[st.Sia], time.Now())
+		r.Ep, r.Amb = eb, ea != eb
+		// "verifies under the host-to-host key": under the key of the epoch of arrival
+		inEp := func(d *adgram) {
+			if d.Auth == "ok" || d.Auth == "bad" {
+				d.Auth = "bad"
+				for _, e := range d.Vep {
+					if e == r.Ep {
+						d.Auth = "ok"
+					}
+				}
+			}
+		}
+		inEp(&q)
+		for j := range r.Outs {
+			inEp(&r.Outs[j])
+		}
+		r.Q = q
+		r.MacOK = q.Auth == "ok"
 		r.Fetches = int(kd.hostAS.Load() - before)
 		r.Tries = 1
 		recs = append(recs, r)
-		if r.Sn == 0 {
+		if r.Sn == 0 || r.Amb {
 			break // the rest of the sequence would meet an unknown cache
 		}
 	}
-	return recs
+	return recs, false
 }
 
 func TestC13Keys(t *testing.T) {
@@ -234,10 +355,6 @@ func TestC13Keys(t *testing.T) {
 	base := net.IPv4(127, byte(1+(hsh>>8)%250), byte(hsh>>16), 0).To4()
 	mk := func(last byte) net.IP { ip := append(net.IP{}, base...); ip[3] = last; return ip }
 	w0 := world{ipS: map[string]net.IP{"server": mk(1), "dispatcher": mk(2)}, ipC: mk(3), ipP: mk(4), ipD: mk(5), ipC2: mk(6)}
-	w0.keyFn = func(srvIA, cliIA addr.IA, srvHost, cliHost netip.Addr) []byte {
-		k := hostHostKey(protoTS, srvIA, cliIA, srvHost.String(), cliHost.String())
-		return k[:]
-	}
 	log := slog.New(slog.DiscardHandler)
 	if os.Getenv("C13_LOG") != "" {
 		log = slog.New(slog.NewTextHandler(os.Stderr, &slog.HandlerOptions{Level: slog.LevelDebug}))
@@ -256,9 +373,9 @@ func TestC13Keys(t *testing.T) {
 			conn.Close()
 			continue
 		}
-		kd := &keyDaemon{}
-		kd.ttl.Store(longTTL)
+		kd := newKeyDaemon()
 		h := &harness{w: w0, dc: kd, grace: 3 * time.Millisecond}
+		kd.bind(&h.w)
 		h.w.srvPort = portOf(conn)
 		// the loop registers its counters on the default registerer when it starts
 		prometheus.DefaultRegisterer = prometheus.NewRegistry()
@@ -282,7 +399,7 @@ func TestC13Keys(t *testing.T) {
 	prometheus.DefaultRegisterer = prometheus.NewRegistry()
 
 	var wg sync.WaitGroup
-	var lost, nseq, nstep, ne2e atomic.Int64
+	var lost, nseq, nstep, ne2e, nlate, ngaveup atomic.Int64
 	for w := 0; w < workers; w++ {
 		wg.Add(1)
 		go func(w int) {
@@ -295,14 +412,27 @@ func TestC13Keys(t *testing.T) {
 				c := &cases[i]
 				var rs []*rec
 				if c.T == "e2e" {
-					kds[w].ttl.Store(longTTL)
 					tc := &tcase{T: "e2e", Mode: "server", Ul: "srv", L4: "udp", Dp: "srv", Dh: "S", Sfam: 4, Dfam: 4,
 						Path: emptyPath, Pl: "ntp", Ak: "valid", Ext: "e2e", Rext: "e2e", Cauth: true, Rm: c.Rm}
 					r := hs[w].runE2EOne(i, tc, -1, -1, rng).r
 					rs = []*rec{r}
 					ne2e.Add(1)
 				} else {
-					rs = hs[w].runSeq(i, c, kds[w], rng)
+					// a sequence that fell behind its epochs is run again with longer epochs
+					gap := 60 * time.Millisecond
+					for try := 0; ; try++ {
+						part, late := hs[w].runSeq(i, c, kds[w], rng, gap)
+						rs = append(rs, part...)
+						if !late {
+							break
+						}
+						nlate.Add(1)
+						if try == 2 {
+							ngaveup.Add(1)
+							break
+						}
+						gap *= 3
+					}
 					nseq.Add(1)
 					nstep.Add(int64(len(rs)))
 				}
@@ -316,5 +446,6 @@ func TestC13Keys(t *testing.T) {
 		}(w)
 	}
 	wg.Wait()
-	t.Logf("C13K records=%d seq=%d e2e=%d lost=%d aborted=0", nstep.Load()+ne2e.Load(), nseq.Load(), ne2e.Load(), lost.Load())
+	t.Logf("C13K records=%d seq=%d e2e=%d lost=%d aborted=0 late=%d gaveup=%d", nstep.Load()+ne2e.Load(), nseq.Load(), ne2e.Load(),
+		lost.Load(), nlate.Load(), ngaveup.Load())
 }
